@@ -41,6 +41,10 @@ MASS_BEARING = ("mass", "energy", "pressure", "power")
 
 
 def plan(tier, seed):
+    return _plan_core(tier, seed) + [{"_label": "suite", "kind": "suite", "tier": tier, "_timeout": 2400}]
+
+
+def _plan_core(tier, seed):
     n = N[tier]
     return [{"_label": f"shard{i}", "seed": seed, "shard": i, "cases": n // 16} for i in range(16)]
 
@@ -250,6 +254,10 @@ def run_case(c, rec, r):
 
 
 def work(spec, rec):
+    if spec.get("kind") == "suite":
+        harness.run_suite("C08", harness.SUITE_QUICK if spec["tier"] == "quick" else harness.SUITE_FULL, rec)
+        rec.case(("suite", spec["tier"]))
+        return
     r = harness.rng_for("C08", spec["seed"], spec["shard"])
     for i in range(spec["cases"]):
         rec.checkpoint()
